@@ -94,6 +94,8 @@ class Renderer:
             return f"{self.ref(e[1])}[{i[1] if i[0] == 'const' else self.rx(i)}]"
         if op == "tobool":
             return f"bool({self.rx(e[1])})"
+        if op == "uview":
+            return f"{self.rx(e[1])}.unsigned"
         if op == "ridx":  # bit of a vector selected by a run-time index
             return f"{self.rx(e[1])}[{self.rx(e[2])}]"
         raise AssertionError(op)
@@ -726,6 +728,8 @@ def snapshot_motif(draw, env):
     """value derived from a Variable, then the Variable is re-assigned, then the saved value is used:
     `@=` takes effect immediately, the saved intermediate must still hold the old value"""
     kinds = (["bool"] if getattr(env, "var_bools", None) else []) + (["bit"] if env.var_bits else []) + (["u"] if env.var_vecs else [])
+    if env.var_vecs and env.in_vecs and env.W >= 4:
+        kinds += ["ridx"]
     kind = draw(st.sampled_from(kinds))
     sig_b = [n for n in env.sig_bits if n not in env.push]
     sig_v = [n for n in env.sig_vecs if n not in env.push]
@@ -735,6 +739,16 @@ def snapshot_motif(draw, env):
         save = {"k": "bind", "bind": name, "e": ["tobool", ["var", v]] if draw(st.booleans()) else ["cnot", ["var", v]]}
         upd = {"k": "var", "t": {"name": v}, "e": draw(cond_expr(env.inputs_only(), 1))}
         env.loc_bools.append(name)
+        use_e = ["loc", name, 1]
+        tgt = sig_b
+    elif kind == "ridx":
+        # element selected by a Variable used directly as run-time index: the reference to the element is made with the
+        # index the Variable holds at that point, a later `@=` of the Variable must not move it
+        v = draw(st.sampled_from(env.var_vecs))
+        name = env.fresh("tb")
+        save = {"k": "bind", "bind": name, "e": ["ridx", ["in", draw(st.sampled_from(env.in_vecs))], ["uview", ["slice", ["var", v], 1, 0]]]}
+        upd = {"k": "var", "t": {"name": v}, "e": draw(vec_expr(env.inputs_only(), 1))}
+        env.loc_bits.append(name)
         use_e = ["loc", name, 1]
         tgt = sig_b
     elif kind == "bit":
